@@ -1000,7 +1000,8 @@ func c08Alphabet(upB bool) func(o *c08Obs) []c08Op {
 func (g *c08Run) seed(ops []c08Op) error {
 	for _, o := range ops {
 		if out := g.w.exec(o); out != OutOk {
-			return fmt.Errorf("seeding op %+v: %s", o, out)
+			res := g.w.e.Run(g.w.msg(o))
+			return fmt.Errorf("seeding op %+v: %s (%s)", o, out, res.Err)
 		}
 	}
 	return nil
@@ -1026,10 +1027,22 @@ func (g *c08Run) fresh() error {
 	return g.fund()
 }
 
+// c08AddrOf: the bech32 address of user i (same numbering as the world's accounts)
+func c08AddrOf(i int) string {
+	setBech32() // the SDK caches address strings: never render one before the prefix is configured
+	return Acct(i + 1).String()
+}
+
 func (g *c08Run) deterministic() error {
 	A, B, C := 0, 1, 2
 	reg := func(s int, n string) c08Op { return c08Op{Kind: "Register", S: s, Name: n, Years: 1, Data: "{}"} }
 	hs := [][]c08Op{
+		// a record of A's name that points at B gives B no right over the name or its records (Update in record form,
+		// DelRecord), and look-alike spellings of a live name (edge hyphens, blanks) never land on that name
+		{reg(A, c08N1), {Kind: "AddRecord", S: A, Name: c08N1, Rec: "www", Val: c08AddrOf(B), Data: "d"}, {Kind: "Update", S: B, Name: "www." + c08N1, Data: "hacked"},
+			{Kind: "DelRecord", S: B, Name: "www." + c08N1}, {Kind: "Transfer", S: A, Name: c08N1, T: C}, {Kind: "Update", S: A, Name: "www." + c08N1, Data: "old-owner"},
+			{Kind: "Update", S: B, Name: "www." + c08N1, Data: "hacked-again"},
+			reg(B, "-"+c08N1), reg(B, "--Foo--.jkl")}, // by B: the name is C's by now
 		// the C08 defect: A lists, A transfers to B, C buys through the stale listing
 		{reg(A, c08N1), {Kind: "List", S: A, Name: c08N1, Denom: "ujkl", Amt: 777}, {Kind: "Transfer", S: A, Name: c08N1, T: B}, {Kind: "Buy", S: C, Name: c08N1},
 			{Kind: "Delist", S: A, Name: c08N1}, {Kind: "Transfer", S: B, Name: c08N1, T: A}, {Kind: "Buy", S: C, Name: c08N1}},
